@@ -108,7 +108,10 @@ FFrame == /\ IsEv("frame") /\ pc \in {"begin", "dead"}
           /\ obs' = [ObsOk EXCEPT !.frame = TRUE, !.mism = Ev.mism, !.azero = Ev.azero]
           /\ UNCHANGED vars
 FRestart == /\ IsEv("restart") /\ StageRestartCtl /\ obs' = ObsOk /\ UNCHANGED nvars
-FNext == FRestart \/ FBegin \/ FLinks \/ FRefuse \/ FAnswer \/ FInduced \/ FFinish \/ FRaise \/ FFrame
+\* after the run: the options object handed to tdgl.solve compared with itself before the run, field by field;
+\* `changed` lists the fields that differ: a run must not rewrite what the caller asked for
+FOptions == /\ IsEv("options") /\ pc \in {"begin", "dead"} /\ Len(Ev.changed) = 0 /\ obs' = ObsOk /\ UNCHANGED vars
+FNext == FOptions \/ FRestart \/ FBegin \/ FLinks \/ FRefuse \/ FAnswer \/ FInduced \/ FFinish \/ FRaise \/ FFrame
          \/ Silent(TestCtl /\ UNCHANGED nvars)
 
 TNext == (Exact /\ XNext) \/ (Flags /\ FNext)
